@@ -26,6 +26,19 @@ def gen_signature(rng, max_params=5, p_ret=0.7, allow_symbolic=True, p_variadic=
         k = rng.choice((0, 1, 1, 2, 2, 3, 4))
         var_at = rng.randint(0, k) if rng.random() < p_variadic else None
         newly = set()
+        if allow_symbolic and bound and rng.random() < 0.15:
+            # an annotation without any named axis: only symbolic / fixed axes (it binds nothing, it only reads)
+            cands = [e for e in ("a+1", "a-1", "2*a", "a*b", "a+b", "b-a", "a+b+c", "c**2", "a//2+b") if _names_of(e) <= bound]
+            if cands:
+                toks = [rng.choice(cands) for _ in range(rng.choice((1, 1, 2)))]
+                if rng.random() < 0.3:
+                    toks.insert(rng.randint(0, len(toks)), str(rng.choice((2, 3))))
+                spec = " ".join(toks)
+                if is_ret:
+                    ret = spec
+                else:
+                    params.append([f"x{i}", spec])
+                continue
         for j in range(k + (1 if var_at is not None else 0)):
             if var_at is not None and j == var_at:
                 r = rng.random()
